@@ -100,6 +100,7 @@ type Obligation struct {
 	TimeS   float64
 	Output  string
 	SMTPath string
+	Block     int
 	WeakModel string // model of the quantifier-free weakening (candidate counterexample)
 }
 
@@ -129,10 +130,25 @@ type Exec struct {
 	externals map[string]bool
 	unfold   int
 	oblNames map[string]int
+	// block-based relevance pruning
+	curBlock    int           // index of the top-frame block being executed (-1: entry/exit phases)
+	assumeBlock []int         // origin block of each assumption
+	reach       map[int]map[int]bool // reach[a][b]: block a reaches block b in the top-frame CFG (reflexive)
+	specAppBlk  map[string]int
 }
 
 func newExec(p *Program, fnKey string) *Exec {
-	return &Exec{p: p, declared: map[string]bool{}, fnKey: fnKey, fuel: 2, specApps: map[string]int{}, notes: map[string]bool{}}
+	return &Exec{p: p, declared: map[string]bool{}, fnKey: fnKey, fuel: 2, specApps: map[string]int{}, notes: map[string]bool{},
+		curBlock: -1, specAppBlk: map[string]int{}}
+}
+
+// relevant reports whether an assumption made in block a can matter for an obligation in block b:
+// a must reach b in the control-flow graph (entry-phase assumptions, block -1, always matter).
+func (e *Exec) relevant(a, b int) bool {
+	if a < 0 || b < 0 || e.reach == nil {
+		return true
+	}
+	return e.reach[a][b]
 }
 
 func (e *Exec) note(format string, a ...interface{}) {
@@ -171,6 +187,7 @@ func (e *Exec) assume(t Term) {
 		return
 	}
 	e.assumes = append(e.assumes, t)
+	e.assumeBlock = append(e.assumeBlock, e.curBlock)
 }
 
 // name introduces a constant for a large term.
@@ -180,6 +197,7 @@ func (e *Exec) name(prefix string, t Term) Term {
 	}
 	c := e.fresh(prefix, t.Sort)
 	e.assumes = append(e.assumes, Eq(c, t))
+	e.assumeBlock = append(e.assumeBlock, e.curBlock)
 	return c
 }
 
@@ -197,7 +215,7 @@ func (e *Exec) oblige(kind, name string, pos token.Pos, pc, goal Term, detail st
 	if n := e.oblNames[name]; n > 1 {
 		name = fmt.Sprintf("%s~%d", name, n)
 	}
-	o := &Obligation{Name: name, Kind: kind, Func: e.fnKey, PC: pc, Goal: goal, NAssume: len(e.assumes), NDecl: len(e.decls), Detail: detail}
+	o := &Obligation{Name: name, Kind: kind, Func: e.fnKey, PC: pc, Goal: goal, NAssume: len(e.assumes), NDecl: len(e.decls), Detail: detail, Block: e.curBlock}
 	if pos.IsValid() {
 		ps := e.p.Fset.Position(pos)
 		o.Pos = fmt.Sprintf("%s:%d", shortFile(ps.Filename), ps.Line)
@@ -239,7 +257,7 @@ func (e *Exec) wrap(st *State, t Term, label string) Val {
 		d := u.DT(t.Sort)
 		r := e.newRoot("s", 1, d.Elem, label)
 		st.mem[r] = u.SArr(t)
-		return Val{K: vSlice, R: r, Off: u.SOff(t), Len: u.SLen(t), S: t.Sort}
+		return Val{K: vSlice, R: r, Off: IntLit(0), Len: u.SLen(t), S: t.Sort, T: t}
 	}
 	if u.IsMap(t.Sort) {
 		r := e.newRoot("m", 2, t.Sort, label)
@@ -258,7 +276,14 @@ func (e *Exec) toTerm(st *State, v Val) Term {
 		if !ok {
 			panic(fmt.Sprintf("toTerm: slice root %s#%d not in state", v.R.Name, v.R.ID))
 		}
-		return e.p.U.MkSlice(v.S, arr, v.Off, v.Len)
+		if v.T.S != "" && v.T.Sort == v.S {
+			// unchanged since it was wrapped: use the original term (avoids eta-expanded copies)
+			u := e.p.U
+			if arr.S == u.SArr(v.T).S && v.Off.S == "0" && v.Len.S == u.SLen(v.T).S {
+				return v.T
+			}
+		}
+		return e.p.U.MkSlice(v.S, e.p.U.Shift(e.p.U.DT(v.S).Elem, arr, v.Off), v.Len)
 	case vMap:
 		m, ok := st.mem[v.R]
 		if !ok {
@@ -303,7 +328,7 @@ func (e *Exec) assumeTypeInv(c Term, t types.Type) {
 	u := e.p.U
 	switch {
 	case u.IsSlice(c.Sort):
-		e.assume(And(Cmp(">=", u.SLen(c), IntLit(0)), Cmp(">=", u.SOff(c), IntLit(0))))
+		e.assume(Cmp(">=", u.SLen(c), IntLit(0)))
 	case u.IsMap(c.Sort):
 		e.assume(Cmp(">=", u.MCard(c), IntLit(0)))
 	case c.Sort == SInt && t != nil:
@@ -313,7 +338,7 @@ func (e *Exec) assumeTypeInv(c Term, t types.Type) {
 	case c.Sort == SNode:
 		// kinds are in range for arrays
 		e.assume(Implies(App(SBool, "(_ is n_arr)", c), And(Cmp(">=", App(SInt, "kind", c), IntLit(0)), Cmp("<=", App(SInt, "kind", c), IntLit(3)),
-			Cmp(">=", u.SLen(App("SliceNode", "elems", c)), IntLit(0)), Cmp(">=", u.SOff(App("SliceNode", "elems", c)), IntLit(0)))))
+			Cmp(">=", u.SLen(App("SliceNode", "elems", c)), IntLit(0)))))
 		e.assume(Implies(App(SBool, "(_ is n_obj)", c), Cmp(">=", u.MCard(App("MapNode", "ov", c)), IntLit(0))))
 	default:
 		if d := u.DT(c.Sort); d != nil && d.Kind == "struct" {
@@ -401,9 +426,9 @@ func (e *Exec) updPath(cur Term, path []Step, v Term) Term {
 	// index into slice-sorted term (array field)
 	d := u.DT(cur.Sort)
 	arr := u.SArr(cur)
-	idx := Arith("+", u.SOff(cur), s.Index)
+	idx := s.Index
 	old := App(d.Elem, "select", arr, idx)
-	return u.MkSlice(cur.Sort, App(arr.Sort, "store", arr, idx, e.updPath(old, path[1:], v)), u.SOff(cur), u.SLen(cur))
+	return u.MkSlice(cur.Sort, App(arr.Sort, "store", arr, idx, e.updPath(old, path[1:], v)), u.SLen(cur))
 }
 
 func (e *Exec) store(st *State, a Val, v Val, pos token.Pos) {
